@@ -27,6 +27,8 @@ import (
 	"github.com/algorand/go-algorand/crypto/merkletrie"
 	"github.com/algorand/go-algorand/data/basics"
 	"github.com/algorand/go-algorand/data/bookkeeping"
+	"github.com/algorand/go-algorand/data/transactions"
+	"github.com/algorand/go-algorand/data/txntest"
 	"github.com/algorand/go-algorand/ledger/ledgercore"
 	"github.com/algorand/go-algorand/ledger/store/trackerdb"
 	"github.com/algorand/go-algorand/protocol"
@@ -127,6 +129,112 @@ func cpxFeed(t *rapid.T, n *engcNode, blk bookkeeping.Block) {
 		t.Fatalf("ENGINE: %s AddBlock %d: %v", n.Name, blk.Round(), err)
 	}
 	n.Quiesce()
+}
+
+// ---------------------------------------------------------------------------------------------------------------
+// scripted prelude: guarantees that kvs, resources and their deletion / re-creation occur in every history
+
+// cpxScript adds, to the blocks of fixed early rounds, transactions that create an application with global state and
+// boxes and an asset with a second holder, and later delete and re-create some of them (box delete + re-create, asset
+// holding close-out, local state opt-in + close-out). Rejections are tolerated (the engine records them).
+type cpxScript struct {
+	App   basics.AppIndex
+	Asset basics.AssetIndex
+	rich  basics.Address
+	other basics.Address
+}
+
+func (sc *cpxScript) apply(w *engcWorld, b *engcBlockBuilder) {
+	tip := b.Gen.s
+	if sc.rich.IsZero() {
+		sc.rich, sc.other = w.Users[0], w.Users[1]
+		if tip.Acct(sc.other).Data.MicroAlgos.Raw > tip.Acct(sc.rich).Data.MicroAlgos.Raw {
+			sc.rich, sc.other = sc.other, sc.rich
+		}
+		for _, u := range w.Users[2:] {
+			switch bal := tip.Acct(u).Data.MicroAlgos.Raw; {
+			case bal > tip.Acct(sc.rich).Data.MicroAlgos.Raw:
+				sc.rich, sc.other = u, sc.rich
+			case bal > tip.Acct(sc.other).Data.MicroAlgos.Raw:
+				sc.other = u
+			}
+		}
+	}
+	rich, other := sc.rich, sc.other
+	a, _, cl := engcPrograms()
+	call := func(sender basics.Address, box string, args ...string) {
+		tx := &txntest.Txn{Type: protocol.ApplicationCallTx, Sender: sender, ApplicationID: sc.App}
+		for _, x := range args {
+			tx.ApplicationArgs = append(tx.ApplicationArgs, []byte(x))
+		}
+		if box != "" {
+			tx.Boxes = []transactions.BoxRef{{Index: 0, Name: []byte(box)}}
+		}
+		_ = b.Submit([]string{"app-call"}, tx)
+	}
+	switch b.Round {
+	case 1:
+		_ = b.Submit([]string{"app-create"}, &txntest.Txn{Type: protocol.ApplicationCallTx, Sender: rich, ApprovalProgram: a, ClearStateProgram: cl,
+			GlobalStateSchema: basics.StateSchema{NumUint: 1, NumByteSlice: 2}, LocalStateSchema: basics.StateSchema{NumByteSlice: 1}})
+		_ = b.Submit([]string{"acfg-create"}, &txntest.Txn{Type: protocol.AssetConfigTx, Sender: rich,
+			AssetParams: basics.AssetParams{Total: 1_000_000, UnitName: "cpx", Manager: rich, Reserve: rich}})
+	case 2:
+		for _, id := range tip.CreatableIDs(basics.AppCreatable) {
+			if c, _ := tip.Creator(id, basics.AppCreatable); c == rich && sc.App == 0 {
+				sc.App = basics.AppIndex(id)
+			}
+		}
+		for _, id := range tip.CreatableIDs(basics.AssetCreatable) {
+			if c, _ := tip.Creator(id, basics.AssetCreatable); c == rich && sc.Asset == 0 {
+				sc.Asset = basics.AssetIndex(id)
+			}
+		}
+		if sc.App != 0 {
+			_ = b.Submit([]string{"app-fund"}, &txntest.Txn{Type: protocol.PaymentTx, Sender: rich, Receiver: sc.App.Address(), Amount: 2_000_000})
+			call(rich, "", "gput", "k", "v0")
+		}
+	}
+	if sc.App != 0 {
+		switch b.Round {
+		case 3:
+			call(rich, "ab", "bput", "ab", "cab")
+			call(rich, "x", "bput", "x", "cx")
+		case 6:
+			call(rich, "x", "bdel", "x")
+		case 8:
+			call(rich, "x", "bput", "x", "cx2") // re-created with another value
+		case 10:
+			_ = b.Submit([]string{"app-optin"}, &txntest.Txn{Type: protocol.ApplicationCallTx, Sender: other, ApplicationID: sc.App, OnCompletion: transactions.OptInOC})
+		case 11:
+			call(other, "", "lput", "a", "v1")
+		case 13:
+			_ = b.Submit([]string{"app-closeout"}, &txntest.Txn{Type: protocol.ApplicationCallTx, Sender: other, ApplicationID: sc.App, OnCompletion: transactions.CloseOutOC})
+		}
+	}
+	if sc.Asset != 0 {
+		switch b.Round {
+		case 3:
+			_ = b.Submit([]string{"axfer-optin"}, &txntest.Txn{Type: protocol.AssetTransferTx, Sender: other, XferAsset: sc.Asset, AssetReceiver: other})
+		case 5:
+			_ = b.Submit([]string{"axfer-send"}, &txntest.Txn{Type: protocol.AssetTransferTx, Sender: rich, XferAsset: sc.Asset, AssetReceiver: other, AssetAmount: 10})
+		case 9:
+			_ = b.Submit([]string{"axfer-close"}, &txntest.Txn{Type: protocol.AssetTransferTx, Sender: other, XferAsset: sc.Asset, AssetReceiver: rich, AssetCloseTo: rich})
+		}
+	}
+}
+
+// cpxScriptedBlock = StepBlock with the scripted transactions of that round in front of the drawn groups.
+func cpxScriptedBlock(w *engcWorld, t *rapid.T, sc *cpxScript, maxGroups int) *engcBlockInfo {
+	b := w.BeginBlock(t)
+	if sc != nil {
+		sc.apply(w, b)
+	}
+	ng := 0
+	if rapid.IntRange(0, 7).Draw(t, "emptyBlock") != 0 {
+		ng = rapid.IntRange(1, maxGroups).Draw(t, "ngroups")
+	}
+	b.RandomGroups(t, ng)
+	return b.Finish(t)
 }
 
 // ---------------------------------------------------------------------------------------------------------------
